@@ -471,11 +471,14 @@ def mem_family(rnd, quick):
             # (4) big streaming response body against a socket that accepts little
             nchunks = total // 16384
             reqs = [{"m": "GET"}]
-            progs = [{"pend": 0, "read": "none", "keep": "handler", "resp": {"status": 200, "conn": "-", "body": {"k": "body-stream", "chunks": [16384] * nchunks}}}]
-            c = h1gen.assemble(reqs, progs, cfg=base_cfg, sock={"budget": 0}, steps=[{"seg": 100}] + [{"w": 1000} for _ in range(50)], epilogue=False)
-            c["steps"] += [{"tick": 600}]
-            c["origin"] = "mem/slow-socket-streaming-response"
-            cases.append(c)
+            # (the service may also fail with an error whose response carries the big body: a separate send loop in the dispatcher)
+            for kind, svc_err, status in (("body-stream", False, 200), ("sized-stream", False, 200), ("body-stream", True, 500), ("sized-stream", True, 503)):
+                progs = [{"pend": 0, "read": "none", "keep": "handler", "svc_err": svc_err,
+                          "resp": {"status": status, "conn": "-", "body": {"k": kind, "chunks": [16384] * nchunks}}}]
+                c = h1gen.assemble(reqs, progs, cfg=base_cfg, sock={"budget": 0}, steps=[{"seg": 100}] + [{"w": 1000} for _ in range(50)], epilogue=False)
+                c["steps"] += [{"tick": 600}]
+                c["origin"] = "mem/slow-socket-streaming-response" + ("-of-service-error" if svc_err else "")
+                cases.append(c)
         # (5) thousands of tiny pipelined requests against a stuck first handler / a socket that never accepts
         nreq = total // 32
         reqs = [{"m": "GET", "ver": 11, "target": "/r1"}]
